@@ -22,6 +22,22 @@ P = {
    text="Decided on every path: producer interceptors only on the first pass (guard retries == 0); every send on Messages() preceded by exactly one interceptor application to that element, with the slow-reader loop's first element (already intercepted by the outer loop) evaluated separately by pruning branches on the induction variable; OnSend/OnConsume only inside the recover wrapper after a deferred recover().",
    note="What an interceptor does to a message and panics outside the interceptor call are not covered.",
    technique="SSA guard queries, per-iteration path counting with induction-variable branch pruning, who-may-call table"),
+ "C04": dict(claimed=True,
+   text="Decided by provenance/guard/path analysis on the current source: reported offset = block.Offset + index; append and record added together exactly once with no error return after the append; record key/value/headers come from the message being added; offset deltas are element indexes; partition chosen once and range-checked before indexing; symmetric byte/count accounting.",
+   note="Codec output and per-version framing bytes are not covered here (C09 decides encoder/decoder agreement); broker behaviour is outside the code.",
+   technique="SSA provenance matching (where does this operand come from), guard and path queries"),
+ "C05": dict(claimed=True,
+   text="Structural necessary conditions of the sequence/epoch discipline decided on every path: sequence taken once under Idempotent ∧ retries==0 ∧ flags==0 by a single caller; epoch bump only for sequenced failures; batch identity provenance; duplicate-sequence = success and the full case→action table; forced rollover before mixing epochs; Validate's four idempotence constraints; whole-batch failure on budget exhaustion.",
+   note="The broker's dedup rules, lost acknowledgements and cross-partition epoch bumps while batches are in flight are not decided.",
+   technique="SSA guard queries, case→action table extraction from switch CFGs, provenance matching"),
+ "C16": dict(claimed=True,
+   text="Decided with guard/path rules: overflow test before every add and wait when it holds; wouldOverflow returns true on each of the three limit predicates (canonical comparisons); oversized messages rejected at the dispatcher; readyToFlush triggers, output enabled exactly under timerFired ∨ readyToFlush, timer arming and reset.",
+   note="The size estimate versus real wire size and timing are not covered.",
+   technique="SSA guard queries over canonical predicates incl. bool-phi (&&/||) conditions, phi-edge analysis"),
+ "C17": dict(claimed=True,
+   text="Every successful return of the built-in partitioners is proved to lie in [0, numPartitions) by an interval analysis relative to the symbolic partition count (round-robin cursor invariant computed from all stores; rand.Intn contract trusted); fallback only for nil keys, Reset before Write, consistency iff keyed; no self-fallback and options use their arguments; the producer's partition-list choice, zero-partition refusal, range check and error handling.",
+   note="Equality with the Java client's hash and uniformity are not covered; rand.Intn(k) ∈ [0,k) is a trusted library contract.",
+   technique="abstract interpretation (symbolic intervals) over SSA + guard/provenance rules"),
  "C01": dict(claimed=True,
    text="Structural necessary conditions of exactly-one-outcome decided on every CFG path of the producer pipeline (emit/Done pairing, no partially disposed batch, marker accounting, exactly-once routing of every partition set, retry budget guards, Wait-before-close, sync-producer expectation protocol). It is not a proof of the behaviour: cross-goroutine liveness of the retry loop is not covered.",
    note="Trusts go/ssa's model of the source; disposer functions are computed as a fixed point from the source, channel/field anchors are named in rules_c01.go.",
